@@ -19,7 +19,11 @@ LOADERS = {"torch._load_from_bytes": ("torch.storage", "_load_from_bytes"), "pic
 CONTAINERS = ("bare", "legacy", "zip")
 LEAVES = {"allowed": ("collections", "OrderedDict"), "nonstd": ("vp_sink", "hit"), "stdlib-unlisted": ("posix", "getpid"),
           # a dotted qualified name (protocol 4 attribute walk) that starts with an allow-listed name
-          "dotted-off-allowed": ("collections", "OrderedDict.fromkeys")}
+          "dotted-off-allowed": ("collections", "OrderedDict.fromkeys"),
+          # resolved through INST (no GLOBAL / STACK_GLOBAL opcode in the pickle)
+          "nonstd-inst": ("vp_sink", "hit", "INST"),
+          # a non-listed member of a module that has other allow-listed members
+          "unlisted-member-of-listed-module": ("collections", "Counter")}
 ADDITIONS = {"none": (), "loads": ("pickle.loads", "_pickle.loads"), "sink": ("vp_sink.hit",),
              "all": ("pickle.loads", "_pickle.loads", "vp_sink.hit")}
 ENTRIES = ("pickle.load", "pickle.loads", "_pickle.load", "_pickle.loads")
@@ -53,6 +57,10 @@ def wrap(container, inner_global, inner_args):
     """Serialise 'call inner_global(*inner_args)' in the given container format."""
     import torch
 
+    if len(inner_global) == 3:
+        if container != "bare":
+            raise ValueError("INST leaf only as a bare pickle")
+        return asm("MARK", ("INST", inner_global[:2]), "STOP")
     if container == "bare" and "." in inner_global[1]:
         from ..asm import sbu
 
